@@ -116,9 +116,25 @@ def opDom (text : Str) (ops : List Str) : String :=
     let rec go (s : St) : List Str → List String
       | [] => []
       | o :: r =>
+        -- NamedNodeMap: setNamedItem / getNamedItem are the Element calls under another name, removeNamedItem is composite
+        let ps := (String.ofList o).splitOn ":"
+        let o := match ps.headD "" with
+          | "sni" => (":".intercalate ("san" :: ps.drop 1)).toList
+          | "gni" => (":".intercalate ("ga" :: ps.drop 1)).toList
+          | _ => o
+        if ps.headD "" == "rni" then
+          match handleId s (ps.getD 1 "") with
+          | none => ("bad-handle {" ++ snapshot s ++ "}") :: go s r
+          | some e =>
+            if !((s.find e).map (fun n => match n.kind with | .elem _ => true | _ => false)).getD false then
+              ("unsupported {" ++ snapshot s ++ "}") :: go s r
+            else
+            let (s', res) := removeNamedItem s e (decode (ps.getD 2 ""))
+            (showRes s' res ++ " {" ++ snapshot s' ++ "}") :: go s' r
+        else
         match parseOp s (String.ofList o) with
         | none =>
-          let alloc := ["ce", "ct", "cc", "cd", "cp", "ca", "cr", "st", "ga", "ch"].contains (((String.ofList o).splitOn ":").headD "")
+          let alloc := ["ce", "ct", "cc", "cd", "cp", "ca", "cr", "st", "ga", "ch", "gni"].contains (((String.ofList o).splitOn ":").headD "")
           let s := if alloc then { s with handles := s.handles ++ [none] } else s
           ("bad-handle {" ++ snapshot s ++ "}") :: go s r
         | some op =>
